@@ -277,10 +277,17 @@ class FileInspector(abc.ABC):
 
         # Check to see if the post-read processing added new regions
         # which may require the current chunk.
-        new_regions = set(self._capture_regions.values()) - pre_regions
-        if new_regions:
+        known_regions = pre_regions
+        new_regions = set(self._capture_regions.values()) - known_regions
+        while new_regions:
             self._capture(chunk, only=[self.region_name(r)
                                        for r in new_regions])
+            # The new regions may have been satisfied by this same chunk
+            # and may in turn define further regions located within it, so
+            # keep processing until no more regions show up.
+            known_regions = set(self._capture_regions.values())
+            self.post_process()
+            new_regions = set(self._capture_regions.values()) - known_regions
 
         post_complete = {region for region in self._capture_regions.values()
                          if region.complete}
